@@ -58,6 +58,19 @@ pub struct BuildingNeeds {
 impl BuildingNeeds {
     /// Añade elemento de demanda del edificio, sumando los valores si ya se han definido para ese servicio
     pub fn add(&mut self, need: Needs) -> Result<(), EpbdError> {
+        // Values can only be added to previously defined needs with the same number of steps
+        let current = match need.service {
+            Service::ACS => self.ACS.as_ref(),
+            Service::CAL => self.CAL.as_ref(),
+            Service::REF => self.REF.as_ref(),
+            _ => None,
+        };
+        if current.map(|nd| nd.len() != need.values.len()).unwrap_or(false) {
+            return Err(EpbdError::WrongInput(format!(
+                "Demanda de edificio con distinto número de pasos de cálculo para el servicio {}",
+                need.service
+            )));
+        }
         let update = |cur_values: &Option<Vec<f32>>, new_values| {
             if let Some(nd) = cur_values {
                 Some(vecvecsum(nd, new_values))
